@@ -108,6 +108,56 @@ def run(ctx):
     adts = AdtIndex([mpq])
     cg = mirg.CallGraph([mpq])
 
+    # the parallel path fails a name only for the reasons the sequential path does: its errors are the handle's errors
+    R_own = ctx.rule("C09.no-own-failure-in-parallel-read", "functions of the parallel modules construct no error of their own (Err(new value) / early `return Err`): every Err is a propagated or re-wrapped error of open/read_file", floor=10)
+    for f in mpq.fn_list:
+        if not f.file.endswith(("single_archive_parallel.rs", "src/parallel.rs")) or f.kind == "Closure" or not f.hir or "::tests::" in f.path:
+            continue
+        own = []
+        for x in hirq.walk(f.hir["body"]):
+            if x.get("k") == "call" and (x.get("fn") or "").endswith("result::Result::Err") and x.get("args"):
+                a = hirq.strip(x["args"][0])
+                # `Err(e)` re-emits a caught error value; anything constructed here is a new failure condition
+                if not (a.get("k") == "path" and "local" in a["res"]) and not (a.get("k") in ("call", "mcall") and re.search(r"::(from|into|context|with_context|map_err)$|^into$|^context$", (a.get("fn") or a.get("m") or ""))):
+                    own.append(x)
+        if own:
+            ctx.saw_fn(f)
+            ctx.bad(R_own, "%s|own-error" % norm(f.path).split("::")[-1], "%s:%d" % (f.file, own[0]["ln"]), "constructs `%s`" % hirq.render(own[0])[:70],
+                    "a name can now fail on the parallel path for a reason the sequential read_file does not have (e.g. a stale or incomplete cached listing): the same request succeeds sequentially and fails in parallel")
+        else:
+            ctx.ok(R_own, {"fn": norm(f.path)})
+
+    # every requested name gets a slot: the request list is partitioned completely and nothing is dropped on the way to the result
+    R_part = ctx.rule("C09.every-name-gets-a-slot", "in the parallel modules: no remainder-dropping chunking (chunks_exact…), no take/skip/step_by, no flatten/filter_map over Option/Result items", floor=20)
+    from ..rules import ncallee as _nc
+    ALWAYS = re.compile(r"::(chunks_exact|par_chunks_exact|rchunks_exact|par_rchunks_exact|array_chunks|step_by|take|skip|take_while|skip_while|map_while|take_any|skip_any)$")
+    ITEM = re.compile(r"::(flatten|flat_map|filter_map|flatten_iter|flat_map_iter)$")
+    for f in mpq.fn_list:
+        if not f.file.endswith(MODULE_FILES) or "::tests::" in f.path or not f.mir.get("blocks"):
+            continue
+        for bb, t in mirg.iter_calls(f):
+            cn = _nc(t) or ""
+            if t.get("x"):
+                continue
+            if ALWAYS.search(cn) and not re.search(r"std::io::|Read::take", cn):
+                ctx.saw_fn(f)
+                ctx.bad(R_part, "%s|%s" % (re.sub(r"::\{closure#\d+\}", "", norm(f.path)).split("::")[-1], cn.split("::")[-1]), "%s:%d" % (f.file, t["ln"]), "`%s` in the parallel extraction path" % cn.split("::")[-1],
+                        "part of the request (the remainder batch, a prefix, every n-th name) never reaches a worker: the parallel call returns fewer slots than a sequential loop, with no error")
+            elif ITEM.search(cn):
+                l0 = mirg.op_local(t["a"][0]) if t["a"] else None
+                ty = (mpq.ty(f.mir["locals"][l0][0]) or "") if l0 is not None else ""
+                m_ = re.search(r"(?:IntoIter|Iter|IterMut|Drain)<(?:'\w+, )?([\w:]+)", ty)
+                item = m_.group(1) if m_ else ""
+                ctx.saw_fn(f)
+                if re.search(r"option::Option$|result::Result$", item):
+                    ctx.bad(R_part, "%s|%s|option-items" % (re.sub(r"::\{closure#\d+\}", "", norm(f.path)).split("::")[-1], cn.split("::")[-1]), "%s:%d" % (f.file, t["ln"]), "`%s` over %s items" % (cn.split("::")[-1], item.split("::")[-1]),
+                            "slots that hold None / Err are silently removed from the result: positions no longer correspond to the request")
+                else:
+                    ctx.ok(R_part, {"fn": norm(f.path), "adapter": cn.split("::")[-1], "items": item or ty[:40]})
+            elif re.search(r"::(chunks|par_chunks|par_iter|into_par_iter|par_bridge|iter|into_iter)$", cn):
+                ctx.rules[R_part]["obligations"] += 1
+                ctx.rules[R_part]["discharged"] += 1
+
     fns = [f for f in mpq.fn_list if f.kind != "Closure" and f.file.endswith(MODULE_FILES) and f.hir]
     # skip #[cfg(test)] — not compiled by `check`, so nothing to skip explicitly
     closure_paths = []
